@@ -7,6 +7,7 @@ import (
 	"fmt"
 	"hash/fnv"
 	"io"
+	"net/http"
 	"os"
 	"runtime"
 	"strconv"
@@ -89,6 +90,8 @@ type jScenario struct {
 	Hook        jHook          `json:"hook"`
 	Probe       bool           `json:"probe"`
 	ZeroJoeShutdownFirst bool  `json:"shutdown_first,omitempty"`
+	// ValRep: the Replayer field holds a struct value (a thin decorator), not a pointer
+	ValRep bool `json:"replayer_by_value,omitempty"`
 	Procs       int            `json:"gomaxprocs,omitempty"`
 }
 
@@ -278,6 +281,9 @@ func runJoe(t *testing.T, sc *jScenario) (tr *jTrace) {
 			}
 			rec = &mon.RecReplayer{Inner: inner, Clock: clock, PutFault: sc.PutFault, ReplayFault: sc.ReplayFault, PutLatency: time.Duration(sc.PutLatency), ReplayLatency: time.Duration(sc.ReplayLatency), ErrKind: sc.ErrKind, WrapTargets: jWrapTargets}
 			joe.Replayer = rec
+			if sc.ValRep {
+				joe.Replayer = valReplayer{rec} // a Replayer that is a struct value, not a pointer
+			}
 			tr.HasRec = true
 		}
 		base := time.Now()
@@ -292,7 +298,8 @@ func runJoe(t *testing.T, sc *jScenario) (tr *jTrace) {
 			pending.Add(1)
 			pt.VTimeCall = time.Since(base)
 			pt.CallStamp = clock.Tick()
-			pt.Ret = joe.Publish(msg, pt.Msg.Topics)
+			// Joe gets its own copy of the topic list: the scenario's list is what the oracles read
+			pt.Ret = joe.Publish(msg, append([]string(nil), pt.Msg.Topics...))
 			pt.RetStamp = clock.Tick()
 			pt.Returned = true
 			pending.Add(-1)
@@ -348,6 +355,11 @@ func runJoe(t *testing.T, sc *jScenario) (tr *jTrace) {
 			st := &jSubTrace{Spec: spec}
 			tr.Subs = append(tr.Subs, st)
 			ctx, cancel := context.WithCancel(context.Background())
+			if i%2 == 1 {
+				// every other subscriber's context carries a cancellation cause of its own
+				c2, cc := context.WithCancelCause(context.Background())
+				ctx, cancel = c2, func() { cc(errSubscriberCause) }
+			}
 			cl := &mon.RecClient{Name: spec.Name, Clock: clock, FailSendAt: spec.FailSendAt, FailFlushAt: spec.FailFlushAt}
 			if spec.FailSendAt > 0 || spec.FailFlushAt > 0 {
 				cl.Err = mon.NewInjected("client:"+spec.Name, spec.FailSendAt*100+spec.FailFlushAt, sc.ErrKind, jWrapTargets)
@@ -363,7 +375,7 @@ func runJoe(t *testing.T, sc *jScenario) (tr *jTrace) {
 				}
 			}
 			st.Client = cl
-			sub := sse.Subscription{Client: cl, Topics: spec.Topics}
+			sub := sse.Subscription{Client: cl, Topics: append([]string(nil), spec.Topics...)}
 			if spec.LastIDSet {
 				sub.LastEventID = sse.ID(spec.LastID)
 			}
@@ -491,6 +503,16 @@ var allTopics = append([]string{"a", "b", "c", sse.DefaultTopic}, func() []strin
 	return u
 }()...)
 
+var errSubscriberCause = errors.New("subscriber's own cancellation cause")
+
+// valReplayer is a Replayer held by value.
+type valReplayer struct{ r *mon.RecReplayer }
+
+func (v valReplayer) Put(m *sse.Message, topics []string) (*sse.Message, error) {
+	return v.r.Put(m, topics)
+}
+func (v valReplayer) Replay(s sse.Subscription) error { return v.r.Replay(s) }
+
 // jWrapTargets: what injected errors may wrap (they stay failures of their own).
 var jWrapTargets = map[string]error{
 	"wraps_canceled":        context.Canceled,
@@ -499,6 +521,7 @@ var jWrapTargets = map[string]error{
 	"wraps_no_topic":        sse.ErrNoTopic,
 	"wraps_provider_closed": sse.ErrProviderClosed,
 	"wraps_os_deadline":     os.ErrDeadlineExceeded,
+	"wraps_not_supported":   http.ErrNotSupported,
 }
 
 func filterStacks(s string) string {
